@@ -212,3 +212,26 @@ func MutateCode(t *rapid.T, code string) string {
 		return rapid.StringN(0, 12, 24).Draw(t, "mutAny")
 	}
 }
+
+// RefusedSkew draws a window / skew above the documented maximum of 10: just above it, and
+// values of the form 2^k + j, 2^k - j, 2^64-1-j (j = 0..10) that alias small windows under
+// doubling, narrowing or sign conversion.
+func RefusedSkew(t *rapid.T) uint64 {
+	j := uint64(rapid.IntRange(0, 10).Draw(t, "skewJ"))
+	switch rapid.IntRange(0, 5).Draw(t, "skewKind") {
+	case 0:
+		return 11 + j
+	case 1:
+		return rapid.SampledFrom([]uint64{100, 255, 256, 1000, 65535, 65536}).Draw(t, "skewMid") + j
+	case 2:
+		k := rapid.SampledFrom([]uint{8, 16, 31, 32, 33, 62, 63}).Draw(t, "skewPow")
+		return uint64(1)<<k + j
+	case 3:
+		k := rapid.SampledFrom([]uint{31, 32, 63}).Draw(t, "skewPowM")
+		return uint64(1)<<k - 1 - j
+	case 4:
+		return ^uint64(0) - j
+	default:
+		return rapid.Uint64Range(11, ^uint64(0)).Draw(t, "skewAny")
+	}
+}
